@@ -361,14 +361,37 @@ class Run:
         self.t0 = time.time()
         self.violations = []     # (kind, path, suffix)
         self.notes = []
+        self.crashes = []        # (case, observation) on which the harness itself failed
 
     # run implementation + model on a list of cases
     def evaluate(self, cases, tag):
-        obs = []
-        for c in cases:
-            obs.append(self.prop.run_impl(c))
-        terms = [self.prop.to_coq(c, o) for c, o in zip(cases, obs)]
-        res = eval_shards(self.prop, terms, tag)
+        """Run the implementation and the model/spec on the cases.  A case on which the
+        harness itself blows up (almost always because the implementation started to
+        return something the driver or the printer cannot digest) is not allowed to
+        kill the check: it is recorded in self.crashes and judged as failing both
+        predicates, so it ends in a VIOLATION line with a replay."""
+        import traceback
+        obs, terms, crashed = [], [], {}
+        for i, c in enumerate(cases):
+            try:
+                o = self.prop.run_impl(c)
+                t = self.prop.to_coq(c, o)
+            except Exception as e:  # noqa
+                o = {"err": "HarnessCrash:" + type(e).__name__, "traceback": traceback.format_exc()[-1500:]}
+                t = None
+                crashed[i] = o
+            obs.append(o)
+            terms.append(t)
+        live = [t for t in terms if t is not None]
+        res_live = eval_shards(self.prop, live, tag)
+        res, k = [], 0
+        for i, t in enumerate(terms):
+            if t is None:
+                res.append({p: False for p in self.prop.preds})
+                self.crashes.append((cases[i], crashed[i]))
+            else:
+                res.append(res_live[k])
+                k += 1
         return obs, res
 
     def write_replay(self, kind, case, obs, extra=None):
